@@ -259,6 +259,24 @@ def C05(tier, seed):
     return chk
 
 
+def C19(tier, seed):
+    chk = Check('C19', tier, seed)
+    be = [0, 2, 3] + ([4] if tier == 'thorough' else [])
+    # (a) inside every phase of a transition the id the root machine reports for the transitioning region is the one the
+    #     configured policy documents: every behaviour logs the root's current ids right after itself (guards: before)
+    bases = ['F1', 'R2'] + (['H2'] if tier == 'thorough' else [])
+    progs = ['%s_%s' % (b, p) for b in bases for p in catalog.POLICIES]
+    oracle_units(chk, progs, be, 'C19', proj=('G', 'A', 'E', 'X', 'F'), check_result=False, probe='ids_root',
+                 opts={'probe': 'ids_root', 'defines': ['VF_PROBE_ON 1']}, bfs_depth=5)
+    # (b) outside transitions the policies are indistinguishable: product harness, same back-end, two policies
+    def variant(prog, cfg):
+        for m in prog.machines: m.policy = cfg[1]
+    pairs = [((0, 'after_entry'), (0, 'before_transition')), ((3, 'after_entry'), (3, 'after_exit')), ((3, 'after_transition_action'), (3, 'before_transition'))]
+    if tier == 'thorough': pairs += [((0, 'after_entry'), (0, 'after_exit')), ((0, 'after_entry'), (0, 'after_transition_action')), ((2, 'after_entry'), (2, 'before_transition'))]
+    product_units(chk, ['F1', 'H2'] if tier == 'quick' else ['F1', 'R2', 'H2', 'X'], pairs, 'C19', variant_fn=variant)
+    return chk
+
+
 BP_TYPES = {0: 'Triv<1> (5 bytes)', 1: 'Triv<44>', 2: 'Triv<52> (56 bytes: fills the inline buffer)', 3: 'Triv<53> (60 bytes: heap)',
             4: 'TrivA<8,16> (alignment 16: heap)', 5: 'TrivA<40,64> (alignment 64: heap)', 6: 'Triv<196> (200 bytes: heap)',
             7: 'NonTriv inline (user copy/move/dtor, self pointer)', 8: 'NonTriv 100 bytes (heap)', 9: 'ThrowMove (move not noexcept: heap)'}
@@ -291,4 +309,4 @@ def C20(tier, seed):
     return chk
 
 
-PROPS = {f.__name__: f for f in (C01, C02, C03, C04, C05, C06, C07, C08, C09, C10, C11, C13, C17, C20)}
+PROPS = {f.__name__: f for f in (C01, C02, C03, C04, C05, C19, C06, C07, C08, C09, C10, C11, C13, C17, C20)}
